@@ -51,6 +51,7 @@ package bytesconv
 //@   opt signedwrap
 //@   requires base == 10 && bitSize == 0
 //@   ensures err == nil ==> signedDigits(s) && i == signedVal(s)
+//@   ensures signedDigits(s) && len(s) - sgn(s) <= 19 && 0 - 9223372036854775808 <= signedVal(s) && signedVal(s) <= 9223372036854775807 ==> err == nil
 //@   ensures err != nil ==> typeis(err, *NumError) && as(err, *NumError) != nil && fresh(as(err, *NumError))
 
 //@ func Atoi(s []byte) (n int, err error)
